@@ -19,3 +19,7 @@ check('C20', 'exploration',
       'Full grid products over location, raw scale, pre-squash action (to |x|=40), min_std, var_scale, event sizes 1-6, batch shapes and keys; log_prob, scale and entropy compared with a 100+ digit decimal evaluation; range, determinism, reparameterisation (noise independence and gradient), bijector round trip, density normalisation; PPO inference function on array and dict observations with non-trivial normaliser statistics.',
       'Grid claim only (transcendental functions: no determining set). Reference is python decimal, independent of jax numerics.',
       'bounded exhaustive grid enumeration with high-precision reference oracle', 'DESIGN.md 4/C20')
+check('C09', 'exploration',
+      'Every polynomial law of the spatial algebra is evaluated exactly (float64 on small integers) on the full tensor product of determining sets for its per-block degrees plus seeded [-9,9] lattice points, which decides the identity over the reals; laws that divide or need unit quaternions are checked on all 624 integer quaternion directions in [-2,2]^4 x lattice vectors at 1e-12.',
+      'Degree table per law (guarded by the extra lattice points); exactness of float64 on integers < 2^53.',
+      'exhaustive evaluation on determining sets (tensor-product unisolvence), exact arithmetic', 'DESIGN.md 4/C09')
